@@ -254,7 +254,43 @@ def run_unknown_case(case):
     return fails
 
 
+def run_zero_case(case):
+    """Source and/or target layouts with zero-width chunks on non-empty axes (legitimate layouts: they arise
+    from compute_chunk_sizes, concatenation with empty arrays, explicit chunks)."""
+    import dask_array as da
+    from vf import funcs
+
+    shape = tuple(case["shape"])
+    a = np.arange(int(np.prod(shape)), dtype="i8").reshape(shape)
+    old = tuple(tuple(c) for c in case["old"])
+    new = tuple(tuple(c) for c in case["new"])
+    assert all(sum(c) == n for c, n in zip(old, shape)) and all(sum(c) == n for c, n in zip(new, shape))
+    x = da.from_array(a, chunks=old)
+    if case.get("opaque"):
+        x = x.map_blocks(funcs.identity, dtype=x.dtype)  # a real task rechunk instead of re-reading the source
+    fails = []
+    try:
+        y = x.rechunk(new)
+    except Exception as e:
+        return [(util.exc_bucket("zero-build", e), util.exc_detail(e))]
+    if tuple(map(tuple, y.chunks)) != new:
+        fails.append(("zero|chunks-differ-from-spec", f"{y.chunks} want {new}"))
+    st_, f, _ = c03.check_array(y, "opt")
+    fails += [("zero|" + b, d) for b, d in f]
+    try:
+        got = y.compute()
+    except Exception as e:
+        fails.append((util.exc_bucket("zero-compute", e), util.exc_detail(e)))
+        return fails
+    why = util.same(got, a)
+    if why:
+        fails.append((f"zero|values|{why.split(' ')[0]}", f"old={old} new={new}: {why}"))
+    return fails
+
+
 def replay(case):
+    if case.get("kind") == "zero":
+        return run_zero_case(case)
     if case.get("kind") == "unknown":
         return run_unknown_case(case)
     _, fails, _ = check(case)
@@ -262,7 +298,7 @@ def replay(case):
 
 
 def shrink(case):
-    if case.get("kind") == "unknown":
+    if case.get("kind") in ("unknown", "zero"):
         return iter(())
     return progrun.shrink_case(case)
 
@@ -271,7 +307,48 @@ def nontrivial(case, labels):
     return "rechunk-in-the-middle" in labels and "target!=source" in labels
 
 
+def _with_zeros(D_, chunks):
+    """Insert 1-2 zero-width chunks at random positions of a chunk tuple."""
+    c = list(chunks)
+    for _ in range(D_.int(1, 2)):
+        c.insert(D_.int(0, len(c)), 0)
+    return c
+
+
 def run_shard(spec, seed):
+    if spec.get("zero"):
+        col = Collector()
+
+        @st.composite
+        def zstrat(draw):
+            D_ = D(draw)
+            rank = D_.int(1, 3)
+            shape = [D_.int(1, 9) for _ in range(rank)]
+            old = [list(c) for c in gchunks.array_chunks(D_, shape)]
+            new = [list(c) for c in gchunks.array_chunks(D_, shape)]
+            where_ = D_.choice(["old", "old", "new", "both"])
+            ax = D_.int(0, rank - 1)
+            if where_ in ("old", "both"):
+                old[ax] = _with_zeros(D_, old[ax])
+            if where_ in ("new", "both"):
+                ax2 = D_.int(0, rank - 1)
+                new[ax2] = _with_zeros(D_, new[ax2])
+            return {"kind": "zero", "shape": shape, "old": old, "new": new, "opaque": D_.chance(2, 3)}
+
+        @hypothesis.seed(seed)
+        @settings(max_examples=spec["cases"], database=None, deadline=None, derandomize=False, phases=[Phase.generate], suppress_health_check=list(HealthCheck))
+        @given(zstrat())
+        def zbody(case):
+            fails = run_zero_case(case)
+            labs = ["zero-width-chunk", "zero-in-old" if any(0 in c for c in case["old"]) else "zero-in-new-only"]
+            if case["opaque"]:
+                labs.append("zero:task-rechunk")
+            col.case(case, case["old"] != case["new"], labs)
+            for b, d in fails:
+                col.fail(b, case, d)
+
+        zbody()
+        return col.result()
     if spec.get("unknown"):
         col = Collector()
 
@@ -303,6 +380,7 @@ def plan(tier):
     specs = progrun.plan_cases(tier, 2400, 250000)
     n = specs[0]["cases"]
     specs[-1] = {"cases": max(20, n), "unknown": True}
+    specs[-2] = {"cases": max(40, 2 * n), "zero": True}
     return specs
 
 
